@@ -202,6 +202,7 @@ def finish(rep: Report, max_replays_per_sig=4):
         groups.setdefault((c["scenario"], _sig(c)), []).append(c)
     violations, known_hits, unconfirmed = [], [], []
     replays_run = 0
+    t_replays = time.time()
     for (scen, sig), cs in sorted(groups.items()):
         cs = sorted(cs, key=lambda c: c.get("prefix_len", 0))
         reproduced = None
@@ -214,7 +215,11 @@ def finish(rep: Report, max_replays_per_sig=4):
                 c2 = dict(c)
                 c2["witness"] = w
                 flat.append(c2)
+        t_sig = time.time()
         for c in flat[: max_replays_per_sig + 8]:
+            if time.time() - t_sig > 150 * symx_slack() or time.time() - t_replays > (900 if rep.tier == "quick" else 3600) * symx_slack():
+                last_out = (last_out or "") + " [replay budget of this signature/check used up]"
+                break
             os.makedirs(rdir, exist_ok=True)
             blob = {"property": rep.pid, "scenario": c["scenario"], "params": c["params"], "label": c["label"], "info": c.get("info"), "witness": c["witness"]}
             h = hashlib.sha1(json.dumps(blob, sort_keys=True).encode()).hexdigest()[:12]
@@ -613,6 +618,13 @@ def generic_replay(scenarios):
             fn(V, **data.get("params", {}))
         except ReplayMismatch as ex:
             return False, f"mismatch: {ex}"
+        except Exception as ex:  # noqa: BLE001
+            from .symx import _quansino_origin
+
+            origin = _quansino_origin()
+            if data["label"] == "completes-without-raising" and origin:
+                return True, f"the real code raises {type(ex).__name__} in {origin}: {str(ex)[:120]}"
+            raise
         hit = [l for l in V.failed if l == data["label"]]
         if hit:
             return True, f"obligation '{data['label']}' fails on the real code"
@@ -622,7 +634,11 @@ def generic_replay(scenarios):
         w = data["witness"]
         if w.get("random_trials"):
             last = "no trial"
+            t_start = time.time()
             for t in range(int(w["random_trials"])):
+                if time.time() - t_start > 45:
+                    last += " (seeded search stopped after 45 s)"
+                    break
                 wt = _random_witness(w, 1000 + t)
                 try:
                     ok, detail = one(data, wt)
